@@ -2,6 +2,7 @@ package main
 
 import (
 	"fmt"
+	"go/constant"
 	"go/token"
 	"go/types"
 	"strings"
@@ -205,23 +206,24 @@ func init() {
 				if len(r.Results) == 0 || isNilConst(r.Results[len(r.Results)-1]) {
 					continue
 				}
-				// an error that comes from the loader or the parser
-				fromLoad := false
+				// an error that comes from the loader or the parser: one obligation per failing step
+				var steps []string
 				for _, o := range p.origins(r.Results[len(r.Results)-1], OriginOpts{}) {
 					if ex, ok := o.(*ssa.Extract); ok {
 						if cl, ok := ex.Tuple.(*ssa.Call); ok {
 							nm := calleeName(&cl.Call)
-							if strings.Contains(nm, "loadFragment") || strings.Contains(nm, "ParseTemplateBytes") {
-								fromLoad = true
+							for _, step := range []string{"loadFragment", "ParseTemplateBytes"} {
+								if strings.Contains(nm, step) {
+									steps = append(steps, step)
+								}
 							}
 						}
 					}
 				}
-				if !fromLoad {
-					continue
+				for _, step := range steps {
+					n++
+					c.check(len(deletes) > 0 && mustPassBefore(fn, r, deletes), fmt.Sprintf("loadCachedWithFrontMatter: failed %s evicts the entry#%d", step, n), p.instrPos(r), "delete(templateCache, name) before the error is returned", "the error of a failed read / parse is returned with the file's previous cache entry still in place: when the file comes back with other content under the old modification time, the stale entry passes the mtime comparison and is served")
 				}
-				n++
-				c.check(len(deletes) > 0 && mustPassBefore(fn, r, deletes), fmt.Sprintf("loadCachedWithFrontMatter: failed load#%d evicts the entry", n), p.instrPos(r), "delete(templateCache, name) before the error is returned", "the error of a failed read / parse is returned with the file's previous cache entry still in place: when the file comes back with other content under the old modification time, the stale entry passes the mtime comparison and is served")
 			}
 			if n == 0 {
 				undecided("no error return after a failed load in the cache loader")
@@ -965,21 +967,19 @@ func init() {
 					continue
 				}
 				n++
-				// the condition that controls the write of the value mentions the normalised value
+				// the condition that controls the use of the normalised value for output mentions that value
 				var write ssa.Instruction
-				for _, w := range callsIn(fn) {
-					if strings.HasSuffix(calleeName(w.Common()), ".WriteString") {
-						for _, o := range p.origins(w.Common().Args[len(w.Common().Args)-1], OriginOpts{}) {
-							if oc, ok := o.(*ssa.Call); ok {
-								for _, a := range oc.Call.Args {
-									if a == ssa.Value(cl) {
-										write = w
-									}
-								}
-							}
-							if o == ssa.Value(cl) {
-								write = w
-							}
+				if cl.Referrers() != nil {
+					for _, r := range *cl.Referrers() {
+						u, ok := r.(ssa.CallInstruction)
+						if !ok {
+							continue
+						}
+						if bi, ok := u.Common().Value.(*ssa.Builtin); ok && bi.Name() == "len" {
+							continue
+						}
+						if write == nil || instrIndex(u) < instrIndex(write) && u.Block() == write.Block() || u.Block().Dominates(write.Block()) && u.Block() != write.Block() {
+							write = u
 						}
 					}
 				}
@@ -992,6 +992,11 @@ func init() {
 						if leaf == ssa.Value(cl) {
 							onNormalised = true
 						}
+						if lc, ok := leaf.(*ssa.Call); ok {
+							if bi, ok := lc.Call.Value.(*ssa.Builtin); ok && bi.Name() == "len" && lc.Call.Args[0] == ssa.Value(cl) {
+								onNormalised = true
+							}
+						}
 					}
 				}
 				c.check(onNormalised, fmt.Sprintf("renderOpenTag: value#%d is written when the normalised value is non-empty", n), p.instrPos(write), "the test and the write use the same string", "whether `=\"…\"` is written is decided on the raw attribute value while the normalised one is written: a value of only whitespace comes out as =\"\" now and as a bare attribute on the next pass — formatting is not idempotent")
@@ -1001,4 +1006,1579 @@ func init() {
 			}
 		},
 	})
+}
+
+func init() {
+	register(&Rule{
+		ID: "C13.R14", Props: []string{"C13"}, Min: 3,
+		Doc: "what is taken for a variable path has the shape of one: the predicate that lets a value position skip the evaluators (IsVariablePath) demands a name character at the first position (so 5, -n, 'text' and (a) go to the evaluator), accepts a quote only inside brackets (so 'hello' is a literal, data[\"k\"] a path), and checks what a bracket holds (so items[0] is a path and items[idx] an expression). Each of the three is a test in the predicate's scan; without it the corresponding expressions silently render as nothing while v-if evaluates them",
+		Run: func(p *Prog, c *Ctx) {
+			fn := p.MustFn("helpers.IsVariablePath")
+			firstStrict, quoteDepth, indexChecked := false, false, false
+			for _, site := range callsIn(fn) {
+				nm := calleeName(site.Common())
+				if nm == "helpers.IsIdentifierChar" && len(site.Common().Args) == 2 {
+					if k, ok := site.Common().Args[1].(*ssa.Const); ok && k.Value != nil && k.Value.String() == "true" {
+						firstStrict = true
+					}
+				}
+				if callee := site.Common().StaticCallee(); callee != nil && inModule(callee) && nm != "helpers.IsIdentifierChar" {
+					// a module predicate over a slice of the expression: the bracket's content
+					for _, a := range site.Common().Args {
+						if _, ok := a.(*ssa.Slice); ok {
+							indexChecked = true
+						}
+					}
+				}
+			}
+			// the quote test and a test of an integer counter (the bracket depth) decide together: one of them is
+			// only evaluated on the other's true edge (a && b), in either order
+			isQuoteTest := func(cond ssa.Value, want bool) bool {
+				bo, ok := cond.(*ssa.BinOp)
+				if !ok || bo.Op != token.EQL || !want {
+					return false
+				}
+				k, isK := constInt(bo.Y)
+				return isK && (k == '"' || k == '\'')
+			}
+			isDepthTest := func(cond ssa.Value, want bool) bool {
+				bo, ok := cond.(*ssa.BinOp)
+				if !ok {
+					return false
+				}
+				switch bo.Op {
+				case token.GTR, token.GEQ, token.NEQ, token.LSS, token.LEQ, token.EQL:
+				default:
+					return false
+				}
+				_, isPhi := bo.X.(*ssa.Phi)
+				_, isInt := bo.X.Type().Underlying().(*types.Basic)
+				m, isK := constInt(bo.Y)
+				return isPhi && isInt && isK && m >= 0 && m <= 1 && bo.X.Type().Underlying().(*types.Basic).Kind() == types.Int
+			}
+			for _, blk := range fn.Blocks {
+				ifi, ok := blk.Instrs[len(blk.Instrs)-1].(*ssa.If)
+				if !ok {
+					continue
+				}
+				cnd, _ := stripNot(ifi.Cond)
+				if isDepthTest(cnd, true) && enteredOnlyUnder(blk, isQuoteTest) {
+					quoteDepth = true
+				}
+				if isQuoteTest(cnd, true) && enteredOnlyUnder(blk, isDepthTest) {
+					quoteDepth = true
+				}
+			}
+			c.check(firstStrict, "IsVariablePath: a path starts with a name", p.pos(fn.Pos()), "IsIdentifierChar(first, true)", "the first character is not required to start a name: `5`, `-n`, `(a)` count as variable paths, are looked up as variables and render as nothing")
+			c.check(quoteDepth, "IsVariablePath: quotes only inside brackets", p.pos(fn.Pos()), "the quote branch depends on the bracket depth", "a quote is accepted anywhere in a path: the string literal 'hello' counts as a variable path and renders as nothing in {{ }} while v-if sees a truthy string")
+			c.check(indexChecked, "IsVariablePath: bracket content is a number or a quoted key", p.pos(fn.Pos()), "the text between brackets is checked", "whatever stands between brackets counts as part of a path: `items[idx]` is looked up with the literal key idx and renders as nothing while v-if evaluates the index")
+		},
+	})
+
+	register(&Rule{
+		ID: "C13.R15", Props: []string{"C13"}, Min: 2,
+		Doc: "a function name is an identifier: wherever the pipe parser turns a match of the call pattern into a function segment (parsePipeExpr for a whole expression, classifySegment for a pipe segment), the matched name has passed helpers.IsIdentifier — the pattern's \\w+ also matches numbers, and `{{ 5 }}` must not fail with \"function '5' not found\"",
+		Run: func(p *Prog, c *Ctx) {
+			n := 0
+			for _, name := range []string{"vuego.parsePipeExpr", "vuego.classifySegment"} {
+				fn := p.MustFn(name)
+				// stores of the constant segmentFilter into a segment's kind field
+				eachInstr(fn, func(in ssa.Instruction) {
+					st, ok := in.(*ssa.Store)
+					if !ok {
+						return
+					}
+					if s, ok := constString(st.Val); !ok || s != "filter" {
+						return
+					}
+					fv := fieldVar(st.Addr)
+					if fv == nil || !(fieldIs(fv, "typ") || fieldIs(fv, "kind")) {
+						return
+					}
+					n++
+					ok2 := everyPathCrosses(st.Block(), func(cond ssa.Value, want bool) bool {
+						cl, ok := cond.(*ssa.Call)
+						return ok && want && calleeName(&cl.Call) == "helpers.IsIdentifier"
+					})
+					c.check(ok2, fmt.Sprintf("%s: function segment#%d only for an identifier", strings.TrimPrefix(name, "vuego."), n), p.instrPos(st), "IsIdentifier(name) on every path", "a function segment is built for whatever the call pattern matched: a bare number or a word starting with a digit becomes a call of a function of that name and fails the render")
+				})
+			}
+			if n == 0 {
+				undecided("no function segment is built in parsePipeExpr / classifySegment")
+			}
+		},
+	})
+
+	register(&Rule{
+		ID: "C13.R17", Props: []string{"C13", "C14", "C03"}, Min: 1,
+		Doc: "strict operators are understood in every position: the text handed to the expression compiler (expr.Compile) has passed the module's operator normaliser (NormalizeComparisonOperators, which rewrites === and !==) inside the evaluator itself — positions that call the evaluator without normalising on their own (v-show, :class / :style objects, slot props, <template :x>) then accept `a !== b` like v-if does",
+		Run: func(p *Prog, c *Ctx) {
+			ev := p.MustFn("(*vuego.ExprEvaluator).Eval")
+			norm := false
+			for f := range p.Cone(ev) {
+				if !inModule(f) {
+					continue
+				}
+				for _, site := range callsIn(f) {
+					if strings.HasSuffix(calleeName(site.Common()), "NormalizeComparisonOperators") {
+						norm = true
+					}
+				}
+			}
+			c.check(norm, "ExprEvaluator.Eval: === and !== are normalised", p.pos(ev.Pos()), "NormalizeComparisonOperators on the way to expr.Compile", "the evaluator compiles the expression as written (or rewrites === only): `a !== b` does not compile, and positions that fall back silently (v-show, :class objects) treat the condition as false")
+		},
+	})
+}
+
+// ---------- rules written after the fifth seeding round ----------
+
+func init() {
+	register(&Rule{
+		ID: "C17.R10", Props: []string{"C17", "C03", "C11", "C08"}, Min: 1,
+		Doc: "the merged environment holds every binding, whatever its value: in Stack.EnvMap the copy of a scope's entries into the result is decided by the iteration alone — no condition on the value (nil, zero, type) stands before the store. A binding that is left out no longer shadows an outer one: v-if / v-show / :class (which read the environment) then see the outer value while {{ }} and bound attributes (which use Lookup) see the inner one, and the nil that hides inherited slot content from itself stops hiding it",
+		Run: func(p *Prog, c *Ctx) {
+			fn := p.MustFn("(*vuego.Stack).EnvMap")
+			n := 0
+			scan := []*ssa.Function{fn}
+			for _, rf := range rangeFuncs(fn) {
+				scan = append(scan, rf.Body)
+			}
+			for _, f := range scan {
+				eachInstr(f, func(in ssa.Instruction) {
+					mu, ok := in.(*ssa.MapUpdate)
+					if !ok {
+						return
+					}
+					n++
+					bad := ""
+					for _, g := range controllingIfs(mu) {
+						for _, leaf := range condLeaves(g.If.Cond) {
+							switch x := leaf.(type) {
+							case *ssa.Const, *ssa.Phi:
+								continue
+							case *ssa.Call:
+								if calleeName(&x.Call) == "builtin.len" {
+									continue
+								}
+							case *ssa.Extract:
+								if _, ok := x.Tuple.(*ssa.Next); ok && x.Index == 0 {
+									continue // the `more entries` flag of the range
+								}
+							}
+							bad = describeValue(leaf) + " at " + p.instrPosOf(leaf)
+						}
+					}
+					c.check(bad == "", fmt.Sprintf("EnvMap: entry copy#%d is unconditional", n), p.instrPos(mu), "decided by the iteration only", "whether a binding is copied into the merged environment also depends on "+bad+": a binding with that value (nil, typically) disappears from the environment and the outer binding of the same name shows through in v-if, v-show and :class while Lookup still honours the inner one")
+				})
+			}
+			// maps.Copy and the struct overlay are whole-map operations: nothing to decide
+			if n == 0 {
+				for _, site := range callsIn(fn) {
+					if strings.HasPrefix(calleeName(site.Common()), "maps.Copy") {
+						n++
+						c.ok(fmt.Sprintf("EnvMap: entry copy#%d is unconditional", n), p.instrPos(site), "maps.Copy copies every entry")
+					}
+				}
+			}
+			if n == 0 {
+				undecided("EnvMap copies no entries")
+			}
+		},
+	})
+
+	register(&Rule{
+		ID: "C05.R12", Props: []string{"C05", "C01"}, Min: 2,
+		Doc: "one test for `the component's root is a <template>`: the include evaluator's decision that evalTemplate has already evaluated the component (isTemplateRoot) and evalTemplate's own entry test look at the same thing — the first node's Type and its Data compared with \"template\". A shorthand tag rewritten to <template include> has the Data but not the atom: if one test reads DataAtom and the other Data, the inner component is evaluated twice (the second time from attributes the first pass already replaced by their values)",
+		Run: func(p *Prog, c *Ctx) {
+			dataEq := func(fn *ssa.Function) (byData, byAtom bool) {
+				eachInstr(fn, func(in ssa.Instruction) {
+					b, ok := in.(*ssa.BinOp)
+					if !ok || (b.Op != token.EQL && b.Op != token.NEQ) {
+						return
+					}
+					for _, side := range []ssa.Value{b.X, b.Y} {
+						f := loadedField(side)
+						if f == nil || f.Pkg() == nil || f.Pkg().Path() != "golang.org/x/net/html" {
+							continue
+						}
+						other := b.Y
+						if side == b.Y {
+							other = b.X
+						}
+						switch f.Name() {
+						case "Data":
+							if s, ok := constString(other); ok && s == "template" {
+								byData = true
+							}
+						case "DataAtom":
+							byAtom = true
+						}
+					}
+				})
+				return
+			}
+			for _, name := range []string{"vuego.isTemplateRoot", "(*vuego.Vue).evalTemplate"} {
+				fns, _ := p.hostsOf(name)
+				if len(fns) == 0 {
+					undecided("%s not found", name)
+				}
+				byData, byAtom := false, false
+				for _, fn := range fns {
+					d, a := dataEq(fn)
+					byData, byAtom = byData || d, byAtom || a
+					// the same predicate, called: trivially the same test
+					if name != "vuego.isTemplateRoot" {
+						roots, _ := p.hostsOf("vuego.isTemplateRoot")
+						for _, site := range callsIn(fn) {
+							for _, r := range roots {
+								if site.Common().StaticCallee() == r {
+									byData = true
+								}
+							}
+						}
+					}
+				}
+				c.check(byData && !byAtom, strings.TrimPrefix(strings.TrimPrefix(name, "(*vuego.Vue)."), "vuego.")+": <template> is recognised by its tag name", p.pos(fns[0].Pos()), "Data == \"template\"", "the test for a <template> root does not compare the node's Data with \"template\" (it reads the atom): a component whose first node is a rewritten shorthand tag is a template root for one of the two tests and not for the other, and is evaluated twice")
+			}
+		},
+	})
+
+	register(&Rule{
+		ID: "C05.R13", Props: []string{"C05", "C08"}, Min: 1,
+		Doc: "the :required check sees the component's own front-matter: the environment handed to evalTemplate as the component's data (a Stack.EnvMap() result) is taken after the loop that writes the front-matter keys into the instance's scope — a snapshot taken earlier (to save a second EnvMap call) misses them, and a component that defines a required key itself fails with `required attribute … not provided`",
+		Run: func(p *Prog, c *Ctx) {
+			fn := p.MustFn("(*vuego.Vue).evalInclude")
+			var sets []ssa.Instruction
+			for _, site := range callsIn(fn) {
+				if isStackCall(site.Common(), "Set") && loopHeaderOf(site.Block()) != nil {
+					sets = append(sets, site)
+				}
+			}
+			if len(sets) == 0 {
+				undecided("evalInclude has no front-matter Set loop")
+			}
+			n := 0
+			for _, site := range callsIn(fn) {
+				if calleeName(site.Common()) != "(*vuego.Vue).evalTemplate" {
+					continue
+				}
+				n++
+				data := site.Common().Args[3]
+				bad := ""
+				for _, o := range p.origins(data, OriginOpts{}) {
+					cl, ok := o.(*ssa.Call)
+					if !ok || !isStackCall(&cl.Call, "EnvMap") {
+						continue
+					}
+					for _, st := range sets {
+						if canFollow(cl, st) && !canFollow(st, cl) {
+							bad = p.instrPos(cl)
+						}
+					}
+				}
+				c.check(bad == "", fmt.Sprintf("evalInclude: evalTemplate#%d gets the environment with the front-matter in it", n), p.instrPos(site), "EnvMap() is called after the front-matter was written", "the component data for the :required check is an environment snapshot taken (at "+bad+") before the front-matter keys were written: a key the component's own front-matter defines counts as `not provided`")
+			}
+			if n == 0 {
+				undecided("evalInclude does not call evalTemplate")
+			}
+		},
+	})
+
+	register(&Rule{
+		ID: "C06.R10", Props: []string{"C06"}, Min: 1,
+		Doc: "fallback content belongs to the component: in the slot evaluator the <slot>'s own children are evaluated with the context's slot scope as it was on entry — no assignment to ctx.SlotScope can run before the fallback evaluation. Switching to the outer scope there (as is right for *supplied* content, which the user of the component wrote) makes a <slot> nested in the fallback look in the wrong instance: supplied #title is lost, or a foreign instance's content appears",
+		Run: func(p *Prog, c *Ctx) {
+			fn := p.MustFn("(*vuego.Vue).evalSlot")
+			node := fn.Params[2]
+			var fallback []ssa.Instruction
+			for _, site := range callsIn(fn) {
+				cc := site.Common()
+				if calleeName(cc) == "(*vuego.Vue).evaluateChildren" && len(cc.Args) > 2 && cc.Args[2] == ssa.Value(node) {
+					fallback = append(fallback, site)
+				}
+			}
+			if len(fallback) == 0 {
+				undecided("evalSlot has no fallback evaluation")
+			}
+			var stores []*ssa.Store
+			eachInstr(fn, func(in ssa.Instruction) {
+				if st, ok := in.(*ssa.Store); ok {
+					if fv := fieldVar(st.Addr); fv != nil && fieldIs(fv, "SlotScope") {
+						stores = append(stores, st)
+					}
+				}
+			})
+			for i, fb := range fallback {
+				bad := ""
+				for _, st := range stores {
+					if canFollow(st, fb) {
+						bad = p.instrPos(st)
+					}
+				}
+				c.check(bad == "", fmt.Sprintf("evalSlot: fallback#%d runs in the component's own slot scope", i+1), p.instrPos(fb), fmt.Sprintf("none of the %d assignment(s) to ctx.SlotScope can precede it", len(stores)), "the slot scope assigned at "+bad+" is current when the <slot>'s fallback children are evaluated: a <slot> inside the fallback is looked up in another instance's scope")
+			}
+		},
+	})
+
+	register(&Rule{
+		ID: "C07.R12", Props: []string{"C07"}, Min: 1,
+		Doc: "a key that is bound to nothing names no layout: Template.Get turns a value into a string with fmt.Sprint only on paths on which the value was compared with nil and is not nil — a front-matter `layout:` with no value must read as \"\" (no layout named), not as \"<nil>\"",
+		Run: func(p *Prog, c *Ctx) {
+			fn := p.MustFn("(*vuego.template).Get")
+			n := 0
+			for _, site := range callsIn(fn) {
+				nm := calleeName(site.Common())
+				if nm != "fmt.Sprint" && nm != "fmt.Sprintf" {
+					continue
+				}
+				n++
+				ok := everyPathCrosses(site.Block(), func(cond ssa.Value, want bool) bool {
+					// `val == nil` false edge, or a successful type assertion to a concrete type
+					if b := eqOnEdge(cond, !want); b != nil && (isNilConst(b.X) || isNilConst(b.Y)) && !isErrorType(b.X.Type()) {
+						return true
+					}
+					if ex, isEx := cond.(*ssa.Extract); isEx && want && ex.Index == 1 {
+						if _, isTA := ex.Tuple.(*ssa.TypeAssert); isTA {
+							return true
+						}
+					}
+					return false
+				})
+				c.check(ok, fmt.Sprintf("Get: fmt.Sprint#%d only of a non-nil value", n), p.instrPos(site), "a nil test lies on every path", "a nil value is formatted like any other and comes out as the text \"<nil>\": an empty `layout:` key then names a layout called <nil>, the default layout is not applied and the chain does not end where it should")
+			}
+			if n == 0 {
+				c.ok("Get: no generic formatting", p.pos(fn.Pos()), "values are not formatted with fmt.Sprint")
+			}
+		},
+	})
+}
+
+func init() {
+	register(&Rule{
+		ID: "C06.R11", Props: []string{"C06"}, Min: 1,
+		Doc: "only elements and non-blank text are slot content: where the children of a component tag are collected as content for the unnamed slot, every append happens on a path on which the child's Type was established to be an element or a text node — a comment (or any other kind of node) is not content, and a body that holds nothing else leaves the slot empty so that its fallback is rendered",
+		Run: func(p *Prog, c *Ctx) {
+			fn := p.MustFn("vuego.extractSlotContent")
+			// the list that becomes the content of the unnamed slot: what is stored as Nodes of the SlotContent
+			// registered outside the child loop (the slot templates' own contents are registered inside it)
+			defaultList := map[ssa.Value]bool{}
+			eachInstr(fn, func(in ssa.Instruction) {
+				st, ok := in.(*ssa.Store)
+				if !ok || loopHeaderOf(st.Block()) != nil {
+					return
+				}
+				if fv := fieldVar(st.Addr); fv == nil || !fieldIs(fv, "Nodes") {
+					return
+				}
+				for _, o := range p.origins(st.Val, OriginOpts{}) {
+					defaultList[o] = true
+				}
+			})
+			n := 0
+			eachInstr(fn, func(in ssa.Instruction) {
+				cl, ok := in.(*ssa.Call)
+				if !ok || calleeName(&cl.Call) != "builtin.append" || loopHeaderOf(cl.Block()) == nil {
+					return
+				}
+				if !isNodeSlice(cl.Type()) || !defaultList[cl] {
+					return
+				}
+				n++
+				typed := false
+				if facts, ok := pathFacts(cl.Block()); ok {
+					for _, f := range facts {
+						b := eqOnEdge(f.Cond, f.Want)
+						if b == nil {
+							continue
+						}
+						for _, pair := range [][2]ssa.Value{{b.X, b.Y}, {b.Y, b.X}} {
+							if fv := loadedField(pair[0]); fv != nil && fv.Name() == "Type" {
+								if k, ok := constInt(pair[1]); ok && (k == 1 || k == 3) { // html.TextNode, html.ElementNode
+									typed = true
+								}
+							}
+						}
+					}
+				}
+				c.check(typed, fmt.Sprintf("extractSlotContent: default-slot child#%d is an element or text", n), p.instrPos(cl), "Type == ElementNode or Type == TextNode on every path", "a child is collected as default-slot content without its node type being established as element or text: an HTML comment in the body of a component tag counts as supplied content, so the unnamed slot renders nothing instead of its fallback")
+			})
+			if n == 0 {
+				undecided("extractSlotContent appends no nodes in a loop")
+			}
+		},
+	})
+
+	register(&Rule{
+		ID: "C08.R12", Props: []string{"C08", "C07"}, Min: 2,
+		Doc: "the chain hands on the rendered content and nothing else: inside the layout loop the accumulated data map that the next link is filled from is only written under constant keys (`content`, the inherited slot scope) and the `layout` key is deleted — no loop copies a link's front-matter (or any other map) into it. A copied key would outrank the Fill / Assign, data/*.yml and theme.yml values of every later layout that does not define it itself",
+		Run: func(p *Prog, c *Ctx) {
+			fn := p.MustFn("(*vuego.template).layout")
+			var render ssa.CallInstruction
+			for _, site := range p.callsToRole(fn, "(*vuego.template).renderWithoutLayout") {
+				render = site
+			}
+			if render == nil {
+				for _, site := range callsIn(fn) {
+					if calleeName(site.Common()) == "(*vuego.template).Load" {
+						render = site
+					}
+				}
+			}
+			if render == nil {
+				undecided("layout: no Load / render call")
+			}
+			h := loopHeaderOf(render.Block())
+			if h == nil {
+				undecided("layout: render call not in a loop")
+			}
+			loop := loopBlocks(h)
+			// the accumulated map: the one handed to Fill
+			var data ssa.Value
+			for _, site := range callsIn(fn) {
+				cc := site.Common()
+				if cc.IsInvoke() && cc.Method.Name() == "Fill" && len(cc.Args) == 1 {
+					for _, o := range p.origins(cc.Args[0], OriginOpts{}) {
+						if _, isMap := o.Type().Underlying().(*types.Map); isMap {
+							data = o
+						}
+					}
+				}
+			}
+			if data == nil {
+				undecided("layout: the map handed to Fill was not found")
+			}
+			same := func(v ssa.Value) bool {
+				for _, o := range p.origins(v, OriginOpts{}) {
+					if o == data {
+						return true
+					}
+				}
+				return false
+			}
+			n := 0
+			eachInstr(fn, func(in ssa.Instruction) {
+				if !loop[in.Block()] {
+					return
+				}
+				switch x := in.(type) {
+				case *ssa.MapUpdate:
+					if !same(x.Map) {
+						return
+					}
+					n++
+					k, isConst := constString(unwrapIface(x.Key))
+					c.check(isConst, fmt.Sprintf("layout: write#%d into the accumulated data has a constant key", n), p.instrPos(x), "key "+fmt.Sprintf("%q", k), "the accumulated data of the chain is written under a computed key (a loop that copies a map into it): a link's front-matter is carried over to the layouts after it and outranks their Fill / Assign and configuration values")
+				case ssa.CallInstruction:
+					if strings.HasPrefix(calleeName(x.Common()), "maps.Copy") && len(x.Common().Args) == 2 && same(x.Common().Args[0]) {
+						n++
+						c.fail(fmt.Sprintf("layout: write#%d into the accumulated data has a constant key", n), p.instrPos(x), "a whole map is copied into the accumulated data of the chain: a link's front-matter is carried over to the layouts after it and outranks their Fill / Assign and configuration values")
+					}
+				}
+			})
+			if n == 0 {
+				undecided("layout: the loop writes nothing into the accumulated data")
+			}
+		},
+	})
+
+	register(&Rule{
+		ID: "C09.R8", Props: []string{"C09", "C10"}, Min: 1,
+		Doc: "node processors are per render: the context constructor fills the context's processor list with what each registered processor's New() returns, in a list it allocates itself — it does not adopt the engine's own list — and nothing stores into an element of a processor list outside that constructor. A processor instance that lives as long as the engine carries its state (collected headings, counters) from one render into the next, and two renders at the same time overwrite each other's instance",
+		Run: func(p *Prog, c *Ctx) {
+			ctor := p.MustFn("vuego.NewVueContext")
+			// the value stored into the Processors field
+			n := 0
+			eachInstr(ctor, func(in ssa.Instruction) {
+				st, ok := in.(*ssa.Store)
+				if !ok {
+					return
+				}
+				fv := fieldVar(st.Addr)
+				if fv == nil || !fieldIs(fv, "Processors") {
+					return
+				}
+				if pk := fv.Pkg(); pk == nil || pk.Path() != modPath {
+					return
+				}
+				// only the context's field (the options struct has one of the same name)
+				if fa, ok := st.Addr.(*ssa.FieldAddr); ok {
+					if pt, ok := fa.X.Type().Underlying().(*types.Pointer); !ok || !isNamed(pt.Elem(), modPath, "VueContext") {
+						return
+					}
+				}
+				n++
+				fresh, fromNew, adopted := false, false, ""
+				for _, o := range p.origins(st.Val, OriginOpts{}) {
+					switch x := o.(type) {
+					case *ssa.MakeSlice, *ssa.Alloc:
+						fresh = true
+					case *ssa.Const:
+						fresh = true
+					case *ssa.Call:
+						if calleeName(&x.Call) == "builtin.append" {
+							fresh = true
+						}
+					default:
+						if f := loadedField(o); f != nil {
+							adopted = "the field " + f.Name()
+						}
+					}
+				}
+				// the elements: results of invoke New()
+				eachInstr(ctor, func(x ssa.Instruction) {
+					if cl, ok := x.(*ssa.Call); ok && cl.Call.IsInvoke() && cl.Call.Method.Name() == "New" {
+						fromNew = true
+					}
+				})
+				c.check(adopted == "" && fresh && fromNew, fmt.Sprintf("NewVueContext: processor list#%d is made of New() instances", n), p.instrPos(st), "a list allocated here, filled with processor.New()", "the context adopts "+adopted+" as its processor list instead of creating a fresh instance of each processor: PreProcess / PostProcess of every render run on the one registered instance, whose state then outlives the render and is shared by concurrent ones")
+			})
+			if n == 0 {
+				undecided("NewVueContext does not set the context's processor list")
+			}
+			// nobody else stores into an element of a processor list
+			m := 0
+			for _, fn := range p.Funcs {
+				if p.Dropped[fn] || fn == ctor {
+					continue
+				}
+				eachInstr(fn, func(in ssa.Instruction) {
+					st, ok := in.(*ssa.Store)
+					if !ok {
+						return
+					}
+					ia, ok := st.Addr.(*ssa.IndexAddr)
+					if !ok {
+						return
+					}
+					if f := loadedField(ia.X); f != nil && (fieldIs(f, "Processors") || fieldIs(f, "nodeProcessors")) {
+						m++
+						c.fail(fmt.Sprintf("%s: store into a processor list#%d", shortName(fn), m), p.instrPos(st), "an element of a processor list is overwritten outside the context constructor: the list's backing array is the engine's (the context is passed by value), so a render replaces the instance another render is still using")
+					}
+				})
+			}
+		},
+	})
+}
+
+func init() {
+	register(&Rule{
+		ID: "C18.R8", Props: []string{"C18", "C07", "C15"}, Min: 1,
+		Doc: "every single-path answer comes from the first layer that has the path: a method of the overlay that takes one path and walks the layers (Open, and any Stat / ReadFile / Sub-like method added later) returns from inside the walk at the first layer that answers without error — it does not let a later layer overwrite the answer — and asks every non-nil layer: a layer that lacks an optional interface (fs.StatFS, fs.ReadFileFS) is asked through the io/fs helper instead of being skipped. The loader's existence checks (layouts/base.vuego, relative layouts) and the template cache's mtime comparison go through these methods",
+		Run: func(p *Prog, c *Ctx) {
+			n := 0
+			for _, fn := range p.Funcs {
+				if p.Dropped[fn] || fn.Parent() != nil || typeShort(recvType(fn)) != "*vuego.OverlayFS" {
+					continue
+				}
+				sig := fn.Signature
+				if sig.Params().Len() != 1 || !isString(sig.Params().At(0).Type()) || sig.Results().Len() != 2 {
+					continue
+				}
+				if _, isSlice := sig.Results().At(0).Type().Underlying().(*types.Slice); isSlice {
+					continue // ReadDir, Glob: unions over all layers (C18.R2/R3/R7)
+				}
+				// the loop over the layers
+				var h *ssa.BasicBlock
+				eachInstr(fn, func(in ssa.Instruction) {
+					if ld, ok := in.(*ssa.UnOp); ok {
+						if f := loadedField(ld); f != nil && fieldIs(f, "chainFS") && ld.Referrers() != nil {
+							for _, u := range *ld.Referrers() {
+								if hh := loopHeaderOf(u.Block()); hh != nil {
+									h = hh
+								}
+							}
+						}
+					}
+				})
+				if h == nil {
+					continue // delegates (to Open, fs.Stat(o, …)) instead of walking itself
+				}
+				n++
+				loop := loopBlocks(h)
+				// (b) a return from inside the walk with a nil error
+				stops := false
+				for _, r := range returnsOf(fn) {
+					if !loop[r.Block()] {
+						// a return block duplicated out of the loop by normalisation still counts when it is only
+						// reachable from inside the loop
+						inner := false
+						for _, pr := range r.Block().Preds {
+							if loop[pr] {
+								inner = true
+							}
+						}
+						if !inner {
+							continue
+						}
+					}
+					if len(r.Results) == 2 && isNilConst(returnedValue(r, 1)) {
+						stops = true
+					}
+				}
+				c.check(stops, shortName(fn)+": returns at the first layer that answers", p.pos(fn.Pos()), "a `return x, nil` inside the walk over the layers", "the walk over the layers has no successful return inside it: every layer that has the path overwrites the answer of the one before, so the answer comes from the lowest layer — content is served from the upper file but its metadata (mtime, size) from a shadowed one, and the template cache validates against the wrong file")
+				// (a) no layer is skipped for lacking an optional interface
+				eachInstr(fn, func(in ssa.Instruction) {
+					ta, ok := in.(*ssa.TypeAssert)
+					if !ok || !ta.CommaOk || !loop[ta.Block()] || !isNamed(ta.X.Type(), "io/fs", "FS") {
+						return
+					}
+					if _, isIface := ta.AssertedType.Underlying().(*types.Interface); !isIface {
+						return
+					}
+					n++
+					// on the `does not implement` edge the layer must still be asked
+					asked := false
+					if ta.Referrers() != nil {
+						for _, r := range *ta.Referrers() {
+							ex, ok := r.(*ssa.Extract)
+							if !ok || ex.Index != 1 || ex.Referrers() == nil {
+								continue
+							}
+							for _, u := range *ex.Referrers() {
+								ifi, ok := u.(*ssa.If)
+								if !ok {
+									continue
+								}
+								cnd, flip := stripNot(ifi.Cond)
+								if cnd != ssa.Value(ex) {
+									continue
+								}
+								notImpl := ifi.Block().Succs[1]
+								if flip {
+									notImpl = ifi.Block().Succs[0]
+								}
+								region := blocksAfterSameRound(notImpl)
+								region[notImpl] = true
+								for b := range region {
+									if !loop[b] {
+										continue
+									}
+									for _, x := range b.Instrs {
+										if cs, ok := x.(ssa.CallInstruction); ok {
+											for _, a := range cs.Common().Args {
+												if a == ta.X || sameValue(a, ta.X) {
+													asked = true
+												}
+											}
+										}
+									}
+								}
+							}
+						}
+					}
+					c.check(asked, fmt.Sprintf("%s: a layer without %s is still asked", shortName(fn), typeShort(ta.AssertedType)), p.instrPos(ta), "the io/fs helper is used on the layer itself when the assertion fails", "a layer that does not implement "+typeShort(ta.AssertedType)+" is skipped: the method then disagrees with Open about which files exist (an embedded theme's layouts/base.vuego is not found, so the default layout is not applied)")
+				})
+			}
+			if n == 0 {
+				undecided("no single-path method of the overlay walks the layers")
+			}
+		},
+	})
+
+	register(&Rule{
+		ID: "C16.R8", Props: []string{"C16"}, Min: 1,
+		Doc: "the identity of a v-once element is its file and its position in that file: the name under which the include evaluator numbers a component's v-once elements is the component's file name (the value of the include attribute) — not something that differs between the ways the component was reached (the include chain, the including file, a depth). An id that depends on the route makes the same element count as a different one for every route, so it is emitted once per route instead of once per render",
+		Run: func(p *Prog, c *Ctx) {
+			fn := p.MustFn("(*vuego.Vue).evalInclude")
+			n := 0
+			for _, site := range callsIn(fn) {
+				if calleeName(site.Common()) != "vuego.assignSeenAttrs" {
+					continue
+				}
+				n++
+				name := site.Common().Args[0]
+				ok, why := false, describeValue(name)
+				for _, o := range p.origins(name, OriginOpts{}) {
+					if cl := isCallNamed(o, "helpers.GetAttr"); cl != nil {
+						if k, isK := constString(cl.Call.Args[1]); isK && k == "include" {
+							ok = true
+							continue
+						}
+					}
+					ok = false
+					why = describeValue(o)
+					break
+				}
+				c.check(ok, fmt.Sprintf("evalInclude: v-once ids of the component#%d are derived from its file name", n), p.instrPos(site), "assignSeenAttrs(GetAttr(node, \"include\"), …)", "the component's v-once ids are derived from "+why+", not from the component's file name alone: the same element gets a different id for every way the component is reached and is emitted once per way")
+			}
+			if n == 0 {
+				undecided("evalInclude does not number v-once elements")
+			}
+		},
+	})
+
+	register(&Rule{
+		ID: "C04.R10", Props: []string{"C04", "C16"}, Min: 1,
+		Doc: "every item gets its instance: in the v-for callback the evaluation of the per-item copy is decided only by the number of loop variables (the one- or two-variable form) — not by the index, the item, or what the looped element carries (a v-once fast path that skips every item after the first forgets that the instance has its own v-if, and that v-once is tested per instance anyway)",
+		Run: func(p *Prog, c *Ctx) {
+			evalFor := p.MustFn("(*vuego.Vue).evalFor")
+			var cb *ssa.Function
+			for _, a := range evalFor.AnonFuncs {
+				if len(a.Params) == 2 {
+					cb = a
+				}
+			}
+			if cb == nil {
+				undecided("evalFor has no two-parameter callback")
+			}
+			n := 0
+			for _, site := range callsIn(cb) {
+				if calleeName(site.Common()) != "(*vuego.Vue).evaluate" {
+					continue
+				}
+				n++
+				bad := ""
+				for _, g := range controllingIfs(site) {
+					for _, leaf := range condLeaves(g.If.Cond) {
+						switch x := leaf.(type) {
+						case *ssa.Const:
+							continue
+						case *ssa.Call:
+							if calleeName(&x.Call) == "builtin.len" {
+								continue
+							}
+						}
+						if isErrorType(leaf.Type()) {
+							continue
+						}
+						bad = describeValue(leaf) + " at " + p.instrPosOf(leaf)
+					}
+				}
+				c.check(bad == "", fmt.Sprintf("evalFor callback: evaluate#%d runs for every item", n), p.instrPos(site), "decided by the number of loop variables only", "whether an item's copy is evaluated also depends on "+bad+": some items of the collection get no instance")
+			}
+			if n == 0 {
+				undecided("the v-for callback does not call evaluate")
+			}
+		},
+	})
+}
+
+func init() {
+	register(&Rule{
+		ID: "C17.R11", Props: []string{"C17", "C08", "C11"}, Min: 1,
+		Doc: "the cycle guard of a data walk records the current path, not everything ever seen: wherever a recursive conversion of caller data marks a pointer in a `visiting` set that is threaded through the recursion (a map parameter), the same key is removed again when that level is left (a deferred or explicit delete after the insert). Without the removal, data that merely mentions one struct twice — root.Author == root.Editor — is taken for a cycle, and the second occurrence converts to an empty map: its fields render as nothing",
+		Run: func(p *Prog, c *Ctx) {
+			n := 0
+			for _, cyc := range recursiveFuncs(p) {
+				fn := cyc
+				var sets []*ssa.Parameter
+				for _, prm := range fn.Params {
+					if mt, ok := prm.Type().Underlying().(*types.Map); ok {
+						if b, ok := mt.Elem().Underlying().(*types.Basic); ok && b.Kind() == types.Bool {
+							sets = append(sets, prm)
+						}
+						if st, ok := mt.Elem().Underlying().(*types.Struct); ok && st.NumFields() == 0 {
+							sets = append(sets, prm)
+						}
+					}
+				}
+				for _, set := range sets {
+					eachInstr(fn, func(in ssa.Instruction) {
+						mu, ok := in.(*ssa.MapUpdate)
+						if !ok || mu.Map != ssa.Value(set) {
+							return
+						}
+						n++
+						removed := false
+						eachInstr(fn, func(x ssa.Instruction) {
+							var cc *ssa.CallCommon
+							switch y := x.(type) {
+							case *ssa.Defer:
+								cc = &y.Call
+							case *ssa.Call:
+								cc = &y.Call
+							}
+							if cc == nil {
+								return
+							}
+							b, isB := cc.Value.(*ssa.Builtin)
+							if !isB || b.Name() != "delete" || cc.Args[0] != ssa.Value(set) {
+								return
+							}
+							if (cc.Args[1] == mu.Key || sameValue(cc.Args[1], mu.Key)) && (canFollow(mu, x) || x.Block() == mu.Block()) {
+								removed = true
+							}
+						})
+						c.check(removed, fmt.Sprintf("%s: visiting[%s] is taken back when the level is left#%d", shortName(fn), describeValue(mu.Key), n), p.instrPos(mu), "delete of the same key after the insert (deferred or explicit)", "the pointer is added to the set that guards against cyclic data and never removed: the set then means `ever seen` instead of `on the current path`, and a struct that is merely referenced twice (no cycle) is converted to an empty map the second time")
+					})
+				}
+			}
+			if n == 0 {
+				undecided("no recursive function of the module marks entries in a visiting set it receives as a parameter")
+			}
+		},
+	})
+}
+
+// recursiveFuncs returns the module functions that call themselves directly.
+func recursiveFuncs(p *Prog) []*ssa.Function {
+	var out []*ssa.Function
+	for _, fn := range p.Funcs {
+		if p.Dropped[fn] || !inModule(fn) {
+			continue
+		}
+		for _, site := range callsIn(fn) {
+			if site.Common().StaticCallee() == fn {
+				out = append(out, fn)
+				break
+			}
+		}
+	}
+	return out
+}
+
+func init() {
+	register(&Rule{
+		ID: "C03.R10", Props: []string{"C03", "C14"}, Min: 2,
+		Doc: "the condition positions agree on what they can read: v-if / v-else-if (evalConditionExpr) and v-show (evalVShow) both evaluate the whole condition with the expression evaluator and, when that fails, fall back to the scope's path resolver, which walks Go structs by JSON tag, hyphenated keys and dotted indexes (`flags.is-open`, `checks.0`) that the expression evaluator cannot. A position without the fallback treats such a condition as false while the others see the value",
+		Run: func(p *Prog, c *Ctx) {
+			for _, name := range []string{"(*vuego.Vue).evalConditionExpr", "(*vuego.Vue).evalVShow"} {
+				fn := p.MustFn(name)
+				var evals, resolves []ssa.Instruction
+				for _, site := range callsIn(fn) {
+					switch calleeName(site.Common()) {
+					case "(*vuego.ExprEvaluator).Eval":
+						evals = append(evals, site)
+					case "(*vuego.Stack).Resolve", "(*vuego.Stack).Lookup":
+						resolves = append(resolves, site)
+					}
+				}
+				if len(evals) == 0 {
+					undecided("%s does not call the expression evaluator", name)
+				}
+				ok := false
+				for _, e := range evals {
+					for _, r := range resolves {
+						if canFollow(e, r) {
+							ok = true
+						}
+					}
+				}
+				c.check(ok, strings.TrimPrefix(name, "(*vuego.Vue).")+": falls back to the path resolver", p.pos(fn.Pos()), "Stack.Resolve is reachable after the evaluator", "this condition position has no fallback to the scope's path resolver after the expression evaluator failed: a truthy value addressed by a path only the resolver can walk (a struct field by JSON tag, a hyphenated key, `list.0`) counts as false here — display:none is added, or the branch is skipped — while the other positions see it")
+			}
+		},
+	})
+}
+
+func init() {
+	register(&Rule{
+		ID: "C19.R13", Props: []string{"C19"}, Min: 2,
+		Doc: "the doctype is carried over, not re-created: in the formatter's full-document path the doctype written to the result is a piece cut out of the source text (a slice of the input), and nowhere does the formatter serialise a node with html.Render — the HTML serialiser spells every doctype its own canonical way (`<!doctype html>` becomes `<!DOCTYPE html>`, identifiers are re-quoted), which is not `byte for byte`",
+		Run: func(p *Prog, c *Ctx) {
+			fn := p.MustFn("(*formatter.Formatter).formatFullDocument")
+			// the parameter that holds the document: the one whose text is handed to the HTML parser
+			var body *ssa.Parameter
+			derivesFrom := func(v ssa.Value, prm *ssa.Parameter) bool {
+				seen := map[ssa.Value]bool{}
+				var walk func(v ssa.Value, d int) bool
+				walk = func(v ssa.Value, d int) bool {
+					if v == nil || seen[v] || d > 6 {
+						return false
+					}
+					seen[v] = true
+					for _, o := range p.origins(v, OriginOpts{}) {
+						if o == ssa.Value(prm) {
+							return true
+						}
+						if ex, ok := o.(*ssa.Extract); ok {
+							o = ex.Tuple
+						}
+						if cl, ok := o.(*ssa.Call); ok && strings.HasPrefix(calleeName(&cl.Call), "strings.") {
+							for _, a := range cl.Call.Args {
+								if walk(a, d+1) {
+									return true
+								}
+							}
+						}
+						if b, ok := o.(*ssa.BinOp); ok && b.Op == token.ADD && isString(b.Type()) {
+							if walk(b.X, d+1) || walk(b.Y, d+1) {
+								return true
+							}
+						}
+					}
+					return false
+				}
+				return walk(v, 0)
+			}
+			for _, site := range callsIn(fn) {
+				if calleeName(site.Common()) == "strings.NewReader" {
+					for _, prm := range fn.Params {
+						if isString(prm.Type()) && derivesFrom(site.Common().Args[0], prm) {
+							body = prm
+						}
+					}
+				}
+			}
+			if body == nil {
+				undecided("formatFullDocument: the parameter that is parsed was not found")
+			}
+			fromSource := false
+			for _, site := range callsIn(fn) {
+				if !strings.HasSuffix(calleeName(site.Common()), ".WriteString") {
+					continue
+				}
+				if derivesFrom(site.Common().Args[len(site.Common().Args)-1], body) {
+					fromSource = true
+				}
+			}
+			c.check(fromSource, "formatFullDocument: the doctype is a slice of the source", p.pos(fn.Pos()), "a piece of the input is written back verbatim", "the full-document path writes no piece of the source text back: the doctype is not carried over byte for byte (it is dropped, or re-created from the parsed node)")
+			renders := ""
+			for _, f := range p.Funcs {
+				if p.Dropped[f] {
+					continue
+				}
+				if pk := funcPkg(f); pk == nil || !strings.HasSuffix(pk.Path(), "/formatter") {
+					continue
+				}
+				for _, site := range callsIn(f) {
+					if calleeName(site.Common()) == "golang.org/x/net/html.Render" {
+						renders = shortName(f) + " at " + p.instrPos(site)
+					}
+				}
+			}
+			c.check(renders == "", "formatter: no node is serialised by html.Render", "-", "the formatter writes every node itself", "the formatter hands a node to html.Render ("+renders+"): the serialiser's canonical spelling replaces what the template author wrote (doctype keyword case, quoting of identifiers, attribute quoting)")
+		},
+	})
+}
+
+func init() {
+	register(&Rule{
+		ID: "C20.R11", Props: []string{"C20"}, Min: 1,
+		Doc: "the Markdown parser is the reference parser with GFM and nothing else: the goldmark instance the renderer is built on is configured with goldmark.WithExtensions(extension.GFM) only — no parser option (WithAttribute, WithAutoHeadingID, …) and no further extension changes what counts as Markdown. `## Install {#setup}` keeps its braces as text, as in the CommonMark / GFM reference output the property compares with",
+		Run: func(p *Prog, c *Ctx) {
+			n := 0
+			for _, fn := range p.Funcs {
+				if p.Dropped[fn] {
+					continue
+				}
+				if pk := funcPkg(fn); pk == nil || pk.Path() != markdownPkg {
+					continue
+				}
+				for _, site := range callsIn(fn) {
+					nm := calleeName(site.Common())
+					if !strings.Contains(nm, "yuin/goldmark") {
+						continue
+					}
+					base := nm[strings.LastIndex(nm, ".")+1:]
+					if !strings.HasPrefix(base, "With") && base != "New" && base != "NewParser" {
+						continue
+					}
+					n++
+					allowed := nm == "github.com/yuin/goldmark.New" || nm == "github.com/yuin/goldmark.WithExtensions"
+					c.check(allowed, fmt.Sprintf("%s: goldmark is configured with %s#%d", shortName(fn), base, n), p.instrPos(site), "goldmark.New(goldmark.WithExtensions(extension.GFM))", "the parser is built with "+nm+": an option beyond GFM changes which source text is Markdown syntax (with WithAttribute a trailing `{…}` of a heading is swallowed as attributes), so the output no longer matches the reference rendering of the same document")
+				}
+				// the extensions handed to WithExtensions
+				eachInstr(fn, func(in ssa.Instruction) {
+					ld, ok := in.(*ssa.UnOp)
+					if !ok || ld.Op != token.MUL {
+						return
+					}
+					g, ok := ld.X.(*ssa.Global)
+					if !ok || g.Pkg == nil || !strings.Contains(g.Pkg.Pkg.Path(), "goldmark/extension") {
+						return
+					}
+					n++
+					c.check(g.Name() == "GFM", fmt.Sprintf("%s: extension %s#%d", shortName(fn), g.Name(), n), p.instrPos(ld), "extension.GFM", "the renderer enables the goldmark extension "+g.Name()+" besides GFM: it parses syntax the reference renderer does not know")
+				})
+			}
+			if n == 0 {
+				undecided("the markdown package does not configure goldmark")
+			}
+		},
+	})
+
+	register(&Rule{
+		ID: "C20.R12", Props: []string{"C20"}, Min: 1,
+		Doc: "what is not front-matter is the document: where the Markdown loader splits a leading `--- … ---` block off a file, the edge on which that block does not parse as YAML returns the file's whole content as the body (and no front-matter) — a document that merely starts with a thematic break and has a second `---` further down (another break, a setext underline, a table row) must not lose everything up to that second line",
+		Run: func(p *Prog, c *Ctx) {
+			fn := p.MustFn("markdown.splitFrontMatter")
+			raw := fn.Params[0]
+			n := 0
+			for _, site := range callsIn(fn) {
+				cl, ok := site.(*ssa.Call)
+				if !ok || !strings.Contains(calleeName(&cl.Call), "yaml") || !strings.HasSuffix(calleeName(&cl.Call), ".Unmarshal") {
+					continue
+				}
+				n++
+				// the error edge
+				var errBlk *ssa.BasicBlock
+				if cl.Referrers() != nil {
+					for _, r := range *cl.Referrers() {
+						b, ok := r.(*ssa.BinOp)
+						if !ok || !(isNilConst(b.X) || isNilConst(b.Y)) || b.Referrers() == nil {
+							continue
+						}
+						for _, u := range *b.Referrers() {
+							if ifi, ok := u.(*ssa.If); ok {
+								if b.Op == token.NEQ {
+									errBlk = ifi.Block().Succs[0]
+								} else {
+									errBlk = ifi.Block().Succs[1]
+								}
+							}
+						}
+					}
+				}
+				if errBlk == nil {
+					c.fail(fmt.Sprintf("splitFrontMatter: a block that is not YAML is part of the document#%d", n), p.instrPos(cl), "the YAML error is not tested at all: whatever stands between the first two `---` lines is dropped")
+					continue
+				}
+				// every return reachable from the error edge (without leaving it) hands back the whole input
+				ok2, found := true, false
+				region := blocksAfterSameRound(errBlk)
+				region[errBlk] = true
+				for _, r := range returnsOf(fn) {
+					if !region[r.Block()] {
+						continue
+					}
+					found = true
+					whole := false
+					for _, o := range p.origins(r.Results[1], OriginOpts{}) {
+						if o == ssa.Value(raw) {
+							whole = true
+						}
+					}
+					// a return that is also reachable without the error (the common tail) means the error edge fell through
+					if !whole || !errBlk.Dominates(r.Block()) {
+						ok2 = false
+					}
+				}
+				c.check(found && ok2, fmt.Sprintf("splitFrontMatter: a block that is not YAML is part of the document#%d", n), p.instrPos(cl), "the error edge returns the whole input as the body", "when the text between the first two `---` lines is not a YAML mapping the function goes on as if it were front-matter: the lines up to the second `---` are cut off the document without any error")
+			}
+			if n == 0 {
+				undecided("splitFrontMatter does not parse YAML")
+			}
+		},
+	})
+}
+
+// quoteScanner describes a hand-written character loop that keeps a "between quotes" flag.
+type quoteScanner struct {
+	fn     *ssa.Function
+	header *ssa.BasicBlock
+	flags  []*ssa.Phi // boolean loop variables
+	quotes map[int64]bool
+}
+
+// quoteScanners finds the loops of a function that compare their character with a quote constant and carry
+// a boolean loop variable which is switched on and off inside the loop.
+func quoteScanners(fn *ssa.Function) []quoteScanner {
+	var out []quoteScanner
+	for _, h := range fn.Blocks {
+		isHeader := false
+		for _, pr := range h.Preds {
+			if h.Dominates(pr) {
+				isHeader = true
+			}
+		}
+		if !isHeader {
+			continue
+		}
+		lb := loopBlocks(h)
+		qs := quoteScanner{fn: fn, header: h, quotes: map[int64]bool{}}
+		for b := range lb {
+			for _, in := range b.Instrs {
+				bo, ok := in.(*ssa.BinOp)
+				if !ok || (bo.Op != token.EQL && bo.Op != token.NEQ) {
+					continue
+				}
+				for _, o := range []ssa.Value{bo.X, bo.Y} {
+					if k, ok := constInt(o); ok && (k == '"' || k == '\'' || k == '`') {
+						qs.quotes[k] = true
+					}
+				}
+			}
+		}
+		if len(qs.quotes) == 0 {
+			continue
+		}
+		for _, in := range h.Instrs {
+			ph, ok := in.(*ssa.Phi)
+			if !ok {
+				break
+			}
+			if bt, ok := ph.Type().Underlying().(*types.Basic); !ok || bt.Kind() != types.Bool {
+				continue
+			}
+			on, off := false, false
+			for _, lf := range phiLeaves(ph, lb) {
+				if k, ok := lf.val.(*ssa.Const); ok && lf.inLoop {
+					if constant.BoolVal(k.Value) {
+						on = true
+					} else {
+						off = true
+					}
+				}
+				if u, ok := lf.val.(*ssa.UnOp); ok && u.Op == token.NOT && lf.inLoop {
+					on, off = true, true
+				}
+			}
+			if on && off {
+				qs.flags = append(qs.flags, ph)
+			}
+		}
+		if len(qs.flags) > 0 {
+			out = append(out, qs)
+		}
+	}
+	return out
+}
+
+type phiLeaf struct {
+	val    ssa.Value
+	from   *ssa.BasicBlock // the block the value arrives from
+	inLoop bool
+}
+
+// phiLeaves flattens the φ-tree below a loop-header φ: the values assigned to the variable and the block
+// each one comes from; inLoop tells the assignments made by the loop body from the initial value.
+func phiLeaves(ph *ssa.Phi, lb map[*ssa.BasicBlock]bool) []phiLeaf {
+	var out []phiLeaf
+	seen := map[*ssa.Phi]bool{}
+	var walk func(p *ssa.Phi)
+	walk = func(p *ssa.Phi) {
+		if seen[p] {
+			return
+		}
+		seen[p] = true
+		for i, e := range p.Edges {
+			from := p.Block().Preds[i]
+			if q, ok := e.(*ssa.Phi); ok {
+				if q != ph {
+					walk(q)
+				}
+				continue
+			}
+			out = append(out, phiLeaf{e, from, lb[from]})
+		}
+	}
+	walk(ph)
+	return out
+}
+
+func init() {
+	register(&Rule{
+		ID: "C13.R18", Props: []string{"C13", "C14"}, Min: 2, // scanners written as a loop with local state; a scanner turned into a struct with a feed method is outside the rule
+		Doc: "quote state of the hand-written splitters (filter arguments, :class/:style object items): (a) a quotation is closed only by the character that opened it — where one flag serves several quote characters, the edge that switches the flag off is taken under a comparison of the current character with the remembered opening character, not with constants (`'it\"s'` stays one string); (b) everything else the scanner does besides copying the character — counting bracket depth, cutting an item off — happens only while the flag is off, so a `)`, `{` or `,` inside a string literal is text",
+		Run: func(p *Prog, c *Ctx) {
+			n := 0
+			for _, fn := range p.Funcs {
+				if p.Dropped[fn] || !inModule(fn) {
+					continue
+				}
+				if pk := funcPkg(fn); pk == nil || (pk.Path() != modPath && !strings.HasSuffix(pk.Path(), "internal/helpers")) {
+					continue
+				}
+				for _, qs := range quoteScanners(fn) {
+					lb := loopBlocks(qs.header)
+					isFlag := func(v ssa.Value) bool {
+						for _, f := range qs.flags {
+							if v == ssa.Value(f) {
+								return true
+							}
+						}
+						return false
+					}
+					flagOff := func(cond ssa.Value, want bool) bool { return isFlag(cond) && !want }
+					under := func(b *ssa.BasicBlock, accept func(ssa.Value, bool) bool) bool {
+						return enteredOnlyUnder(b, accept) || everyPathCrosses(b, accept)
+					}
+					// (a) closing
+					for _, f := range qs.flags {
+						for _, lf := range phiLeaves(f, lb) {
+							if !lf.inLoop {
+								continue
+							}
+							closes := false
+							if k, ok := lf.val.(*ssa.Const); ok && !constant.BoolVal(k.Value) {
+								closes = true
+							}
+							if u, ok := lf.val.(*ssa.UnOp); ok && u.Op == token.NOT {
+								closes = true
+							}
+							if !closes {
+								continue
+							}
+							n++
+							what := fmt.Sprintf("%s: the quote flag %s is switched off only by the opening character#%d", shortName(fn), f.Comment, n)
+							if len(qs.flags) >= len(qs.quotes) {
+								c.ok(what, p.pos(qs.header.Instrs[0].Pos()), "one flag per quote character")
+								continue
+							}
+							byOpener := under(lf.from, func(cond ssa.Value, want bool) bool {
+								b := eqOnEdge(cond, want)
+								if b == nil {
+									return false
+								}
+								_, xc := b.X.(*ssa.Const)
+								_, yc := b.Y.(*ssa.Const)
+								return !xc && !yc
+							})
+							c.check(byOpener, what, p.instrPos(lf.from.Instrs[len(lf.from.Instrs)-1]), "closed under `ch == opener`", "the scanner serves "+fmt.Sprint(len(qs.quotes))+" quote characters with one flag and leaves the quoted state on any of them: in `'it\"s, ok'` the double quote ends the single-quoted string, and the comma after it cuts the literal in two")
+						}
+					}
+					// (b) structure only outside quotes
+					for _, b := range fn.Blocks {
+						if !lb[b] {
+							continue
+						}
+						for _, in := range b.Instrs {
+							desc := ""
+							switch x := in.(type) {
+							case *ssa.BinOp:
+								if x.Op != token.ADD && x.Op != token.SUB {
+									continue
+								}
+								if bt, ok := x.Type().Underlying().(*types.Basic); !ok || bt.Info()&types.IsInteger == 0 {
+									continue
+								}
+								if _, ok := constInt(x.Y); !ok {
+									continue
+								}
+								ph, ok := x.X.(*ssa.Phi)
+								if !ok || !lb[ph.Block()] {
+									continue
+								}
+								// the loop's own index is not a depth counter
+								if x.Referrers() != nil {
+									idx := false
+									for _, r := range *x.Referrers() {
+										if rp, ok := r.(*ssa.Phi); ok && rp == ph && x.Block().Dominates(qs.header.Preds[len(qs.header.Preds)-1]) && len(*x.Referrers()) == 1 && b == qs.header.Preds[len(qs.header.Preds)-1] {
+											idx = true
+										}
+									}
+									if idx {
+										continue
+									}
+								}
+								desc = "the depth counter " + ph.Comment + " changes"
+							case *ssa.Call:
+								if bi, ok := x.Call.Value.(*ssa.Builtin); !ok || bi.Name() != "append" {
+									continue
+								}
+								desc = "an item is cut off (append)"
+							default:
+								continue
+							}
+							n++
+							c.check(under(b, flagOff), fmt.Sprintf("%s: %s only outside quotes#%d", shortName(fn), desc, n), p.instrPos(in), "under !"+qs.flags[0].Comment, "inside a quoted string the scanner still treats the character as structure: "+desc+" although the quote flag may be on, so a bracket or comma that is part of a string literal changes how the argument list / object literal is split")
+						}
+					}
+				}
+			}
+			if n == 0 {
+				undecided("no quote-aware scanner found")
+			}
+		},
+	})
+}
+
+func init() {
+	register(&Rule{
+		ID: "C13.R19", Props: []string{"C13", "C14"}, Min: 1,
+		Doc: "the empty text is not an expression: the predicate that sends a value position's text either to the scope lookup or to the evaluators (IsVariablePath) answers `path` for the empty string, so `{{ }}`, `:title=\"\"` and `:class=\"\"` have no value (nothing rendered, attribute omitted) instead of failing the render in the compiler with `unexpected token EOF`",
+		Run: func(p *Prog, c *Ctx) {
+			fn := p.MustFn("helpers.IsVariablePath")
+			if len(fn.Params) == 0 {
+				undecided("IsVariablePath has no parameter")
+			}
+			prm := fn.Params[0]
+			isEmptyTest := func(cond ssa.Value, want bool) bool {
+				op, x, y, ok := relationOnEdge(cond, want)
+				if !ok {
+					return false
+				}
+				fromPrm := func(v ssa.Value) bool {
+					if v == ssa.Value(prm) {
+						return true
+					}
+					if cl, ok := v.(*ssa.Call); ok {
+						if bi, ok := cl.Call.Value.(*ssa.Builtin); ok && bi.Name() == "len" && cl.Call.Args[0] == ssa.Value(prm) {
+							return true
+						}
+					}
+					return false
+				}
+				isZero := func(v ssa.Value) bool {
+					if s, ok := constString(v); ok && s == "" {
+						return true
+					}
+					k, ok := constInt(v)
+					return ok && k == 0
+				}
+				switch op {
+				case token.EQL:
+					return fromPrm(x) && isZero(y) || fromPrm(y) && isZero(x)
+				case token.LEQ:
+					return fromPrm(x) && isZero(y)
+				case token.LSS:
+					k, ok := constInt(y)
+					return fromPrm(x) && ok && k == 1
+				}
+				return false
+			}
+			n := 0
+			for _, r := range returnsOf(fn) {
+				if !enteredOnlyUnder(r.Block(), isEmptyTest) {
+					continue
+				}
+				n++
+				k, ok := r.Results[0].(*ssa.Const)
+				c.check(ok && constant.BoolVal(k.Value), fmt.Sprintf("IsVariablePath: the empty text has no value#%d", n), p.instrPos(r), "returns true for \"\"", "the empty string is classified as an expression: every value position hands it to the evaluator, whose compiler rejects it — `{{ }}` and `:title=\"\"` fail the whole render instead of rendering nothing")
+			}
+			if n == 0 {
+				// no test of its own: the scan loop does not run and the tail return decides
+				for _, r := range returnsOf(fn) {
+					if loopHeaderOf(r.Block()) != nil {
+						continue
+					}
+					if k, ok := r.Results[0].(*ssa.Const); ok {
+						n++
+						c.check(constant.BoolVal(k.Value), fmt.Sprintf("IsVariablePath: the empty text has no value#%d", n), p.instrPos(r), "the scan of an empty string falls through to `return true`", "the empty string is classified as an expression and fails in the compiler")
+					}
+				}
+			}
+			if n == 0 {
+				undecided("IsVariablePath: no return for the empty text found")
+			}
+		},
+	})
+}
+
+// fmtPrintsValue: a call into fmt's printer family whose operand list contains v is a recursive walk over v.
+func fmtPrinter(name string) bool {
+	switch name {
+	case "fmt.Sprint", "fmt.Sprintf", "fmt.Sprintln", "fmt.Fprint", "fmt.Fprintf", "fmt.Fprintln", "fmt.Errorf", "fmt.Appendf", "fmt.Append", "fmt.Print", "fmt.Printf", "fmt.Println":
+		return true
+	}
+	return false
+}
+
+// printedOperands returns the values a fmt call formats (the elements stored into its variadic slice), each
+// with the verb that formats it when the call has a constant format string ("v" for the Sprint family).
+type printedOperand struct {
+	val  ssa.Value
+	verb byte
+}
+
+func printedOperands(site ssa.CallInstruction) []printedOperand {
+	args := site.Common().Args
+	if len(args) == 0 {
+		return nil
+	}
+	last := args[len(args)-1]
+	sl, ok := last.(*ssa.Slice)
+	if !ok {
+		return nil
+	}
+	al, ok := sl.X.(*ssa.Alloc)
+	if !ok || al.Referrers() == nil {
+		return nil
+	}
+	// the verbs of a constant format, in operand order (explicit argument indexes are not used in this module)
+	var verbs []byte
+	known := false
+	for _, a := range args[:len(args)-1] {
+		if f, ok := constString(a); ok && strings.Contains(calleeName(site.Common()), "f") {
+			known = true
+			for i := 0; i < len(f); i++ {
+				if f[i] != '%' {
+					continue
+				}
+				i++
+				for i < len(f) && strings.IndexByte("+-# 0123456789.*[]", f[i]) >= 0 {
+					i++
+				}
+				if i < len(f) && f[i] != '%' {
+					verbs = append(verbs, f[i])
+				}
+			}
+		}
+	}
+	var out []printedOperand
+	for _, r := range *al.Referrers() {
+		ia, ok := r.(*ssa.IndexAddr)
+		if !ok || ia.Referrers() == nil {
+			continue
+		}
+		idx, isK := constInt(ia.Index)
+		for _, u := range *ia.Referrers() {
+			if st, ok := u.(*ssa.Store); ok && st.Addr == ssa.Value(ia) {
+				verb := byte('v')
+				if known && isK && int(idx) < len(verbs) {
+					verb = verbs[idx]
+				}
+				out = append(out, printedOperand{st.Val, verb})
+			}
+		}
+	}
+	return out
+}
+
+func init() {
+	register(&Rule{
+		ID: "C11.R11", Props: []string{"C11"}, Min: 8,
+		Doc: "data is never handed to fmt's recursive printer unguarded: fmt walks maps, slices and interfaces without a visited set, so a value that contains itself (m[\"self\"] = m, s[1] = s) recurses until the stack is exhausted — a fatal error no recover catches. Every fmt print of a value whose static type is an interface other than error (a data value: its dynamic type is the caller's) happens either under the module's cycle guard (the operand went through the guard predicate on every path, as in helpers.Sprint) or on an edge where a type switch / assertion has established a basic dynamic type",
+		Run: func(p *Prog, c *Ctx) {
+			guards, _ := p.hostsOf("helpers.IsCyclic")
+			isGuard := func(fn *ssa.Function) bool {
+				for _, g := range guards {
+					if fn == g {
+						return true
+					}
+				}
+				return false
+			}
+			n := 0
+			for _, fn := range p.Funcs {
+				if p.Dropped[fn] || !inModule(fn) {
+					continue
+				}
+				pk := funcPkg(fn)
+				if pk == nil || strings.HasSuffix(pk.Path(), "/cmd/vuego") || strings.Contains(pk.Path(), "/cmd/") || strings.Contains(pk.Path(), "/internal/ulid") {
+					continue
+				}
+				for _, site := range callsIn(fn) {
+					if !fmtPrinter(calleeName(site.Common())) {
+						continue
+					}
+					for _, po := range printedOperands(site) {
+						op := po.val
+						if po.verb == 'T' || po.verb == 'p' {
+							continue // the type / the address: the value is not walked
+						}
+						if ci, ok := op.(*ssa.ChangeInterface); ok {
+							op = ci.X
+						}
+						mi, ok := op.(*ssa.MakeInterface)
+						var dyn ssa.Value = op
+						if ok {
+							// a concrete value boxed for the call: only composite types that can hold themselves matter
+							if !canHoldItself(mi.X.Type(), 0) {
+								continue
+							}
+							dyn = mi.X
+						} else if !types.IsInterface(op.Type()) || isErrorType(op.Type()) || describesItself(op.Type()) {
+							continue
+						}
+						if _, isConst := dyn.(*ssa.Const); isConst {
+							continue
+						}
+						n++
+						what := fmt.Sprintf("%s: %s of a data value#%d", shortName(fn), strings.TrimPrefix(calleeName(site.Common()), "fmt."), n)
+						// (a) a basic dynamic type is established on every path
+						basic := func(cond ssa.Value, want bool) bool {
+							ex, ok := cond.(*ssa.Extract)
+							if !ok || ex.Index != 1 || !want {
+								return false
+							}
+							ta, ok := ex.Tuple.(*ssa.TypeAssert)
+							if !ok || !sameBoxed(ta.X, dyn) {
+								return false
+							}
+							return !canHoldItself(ta.AssertedType, 0)
+						}
+						if ta, ok := dyn.(*ssa.Extract); ok {
+							if t, ok := ta.Tuple.(*ssa.TypeAssert); ok && !canHoldItself(t.AssertedType, 0) {
+								c.ok(what, p.instrPos(site), "operand has a basic dynamic type (type assertion)")
+								continue
+							}
+						}
+						if enteredOnlyUnder(site.Block(), basic) || everyPathCrosses(site.Block(), basic) {
+							c.ok(what, p.instrPos(site), "operand has a basic dynamic type (type switch)")
+							continue
+						}
+						// (b) the cycle guard answered "no" for this operand on every path
+						guarded := func(cond ssa.Value, want bool) bool {
+							cl, ok := cond.(*ssa.Call)
+							if !ok || want {
+								return false
+							}
+							callee := cl.Call.StaticCallee()
+							if callee == nil || !isGuard(callee) {
+								return false
+							}
+							for _, a := range cl.Call.Args {
+								if sameBoxed(a, dyn) {
+									return true
+								}
+							}
+							return false
+						}
+						if len(guards) > 0 && (enteredOnlyUnder(site.Block(), guarded) || everyPathCrosses(site.Block(), guarded)) {
+							c.ok(what, p.instrPos(site), "under the cycle guard")
+							continue
+						}
+						c.fail(what, p.instrPos(site), "the value is formatted by fmt without the cycle guard and without a basic dynamic type: a map or slice that (directly or through nested values) contains itself makes fmt recurse until the goroutine's stack limit is hit, which terminates the process — the render call never returns and no recover applies")
+					}
+				}
+			}
+		},
+	})
+}
+
+// describesItself: every value of this interface type has a String or Error method, which fmt calls instead of walking
+// the value (reflect.Type, fmt.Stringer, …).
+func describesItself(t types.Type) bool {
+	it, ok := t.Underlying().(*types.Interface)
+	if !ok {
+		return false
+	}
+	for i := 0; i < it.NumMethods(); i++ {
+		m := it.Method(i)
+		sig := m.Type().(*types.Signature)
+		if (m.Name() == "String" || m.Name() == "Error") && sig.Params().Len() == 0 && sig.Results().Len() == 1 && isString(sig.Results().At(0).Type()) {
+			return true
+		}
+	}
+	return false
+}
+
+// canHoldItself: values of this type can contain (a reference to) themselves through maps, slices or interfaces.
+func canHoldItself(t types.Type, depth int) bool {
+	if depth > 6 {
+		return true
+	}
+	switch u := t.Underlying().(type) {
+	case *types.Basic:
+		return false
+	case *types.Interface:
+		return !isErrorType(t)
+	case *types.Map:
+		return canHoldItself(u.Elem(), depth+1) || canHoldItself(u.Key(), depth+1)
+	case *types.Slice:
+		return canHoldItself(u.Elem(), depth+1)
+	case *types.Array:
+		return canHoldItself(u.Elem(), depth+1)
+	case *types.Pointer:
+		// fmt prints nested pointers as addresses; at top level it follows one level
+		return canHoldItself(u.Elem(), depth+1)
+	case *types.Struct:
+		for i := 0; i < u.NumFields(); i++ {
+			if canHoldItself(u.Field(i).Type(), depth+1) {
+				return true
+			}
+		}
+		return false
+	}
+	return false
+}
+
+// sameBoxed: a and b are the same SSA value, looking through interface boxing and type changes.
+func sameBoxed(a, b ssa.Value) bool {
+	strip := func(v ssa.Value) ssa.Value {
+		for {
+			switch x := v.(type) {
+			case *ssa.MakeInterface:
+				v = x.X
+			case *ssa.ChangeInterface:
+				v = x.X
+			case *ssa.ChangeType:
+				v = x.X
+			default:
+				return v
+			}
+		}
+	}
+	return sameValue(strip(a), strip(b))
 }
